@@ -198,6 +198,23 @@ def pick_event(rng, evs, weights, policy, sim):
         others = [e for e in evs if not (e[0] == 'main' and e[1] in parked)]
         if parked and others:
             evs = others
+    if policy == 'd7b':
+        # park a receiving thread inside deposit_result while the main thread of the same worker sits before
+        # `if box.ready`, then let that main thread run first
+        mid = [r.wid for r in sim.workers if r.rgate.label == 'dep']
+        if mid:
+            mains = [e for e in evs if e[0] == 'main' and e[1] in mid]
+            if mains:
+                return mains[0]
+            return next(e for e in evs if e[0] == 'recv2')
+        parked = [r.wid for r in sim.workers if r.gate.label == 'aw2']
+        for i in parked:
+            if sim.down[i] and sim.down[i][0][0].name == 'RESULT' and ('recv', i) in evs:
+                sim.arm_deposit_gate(i)
+                return ('recv', i)
+        others = [e for e in evs if not (e[0] in ('main', 'recv') and e[1] in parked)]
+        if parked and others:
+            evs = others
     ws = [weights.get(e[0], 1) for e in evs]
     return rng.choices(evs, ws)[0]
 
@@ -216,6 +233,7 @@ def run_case(case: dict) -> dict:
     dumps = [sim.dump()]
     evlog = []
     d7_hits = 0
+    split_handler = False
     other_dw = []
     tainted = set()     # tasks whose wake-up count is already off by one because of a D7 double wake
     try:
@@ -273,6 +291,9 @@ def run_case(case: dict) -> dict:
             nev += 1
             if e[0] == 'server':
                 lines.append('server %d %s' % (e[1], rtsim.fmt(info['asg'])))
+            elif e[0] == 'recv2' or rig.rgate.label == 'dep':
+                split_handler = True          # a handler was split: no model event corresponds
+                lines.append('main 99')
             else:
                 lines.append('%s %d' % e)
             evlog.append(list(e))
@@ -301,6 +322,8 @@ def run_case(case: dict) -> dict:
         # ---------------- correspondence ------------------------------------------------
         out = vf.run_model('worker', lines + ['ghost'])
         mism = next((i for i in range(len(dumps)) if i >= len(out) or dumps[i] != out[i]), None)
+        if split_handler:
+            mism, out = None, out[:len(dumps)]        # oracle-only run (the model's handlers are atoms)
         if mism is not None:
             res['findings'].append(dict(
                 sig={'call': 'correspondence', 'symptom': 'tables-differ', 'event': (lines[mism].split() or ['?'])[0]},
@@ -367,7 +390,11 @@ def run_case(case: dict) -> dict:
                 if kind == 'await':
                     want = exp[0] if single else exp
                     if value != want:
-                        add({'call': 'await', 'symptom': 'wrong-value'}, 'await on future %d of task %d' % (f, nid), want, value)
+                        if split_handler and (value is None or (isinstance(value, list) and None in value)):
+                            add({'call': 'deposit_result', 'symptom': 'value-read-before-stored'},
+                                'await on future %d of task %d returned None: the main thread saw box.ready after `num_results += 1` and before the value was stored' % (f, nid), want, value)
+                        else:
+                            add({'call': 'await', 'symptom': 'wrong-value'}, 'await on future %d of task %d' % (f, nid), want, value)
                 else:
                     ss = seen_slots.setdefault((nid, f), [])
                     if not isinstance(value, list):
@@ -390,7 +417,10 @@ def run_case(case: dict) -> dict:
             for f, kids in enumerate(info[nid]['futs']):
                 if any(c[0] == 'na' and c[1] == f for c in info[nid]['script']) and sorted(seen_slots.get((nid, f), [])) != list(range(len(kids))):
                     add({'call': 'next', 'symptom': 'incomplete'}, 'next-loop on future %d of task %d ended without all slots' % (f, nid), list(range(len(kids))), seen_slots.get((nid, f)))
+        d7b = any(f['sig'].get('symptom') == 'value-read-before-stored' for f in res['findings'])
         for where, text in sim.exceptions:
+            if d7b and where.startswith('recv') and 'KeyError' in text and '_handle_result' in text:
+                continue        # consequence of D7b: the awaiting task already finished when the handler resumed
             add({'call': where.rstrip('0123456789'), 'symptom': 'internal-exception'}, 'exception outside any task body in %s' % where, 'none', text)
         for c, p in errors:
             text = p if isinstance(p, str) else repr(p)
@@ -527,7 +557,7 @@ def run(ctx: vf.Ctx):
     import rtsim  # noqa: F401  import bqskit once, before forking (no threads exist yet)
     t0 = time.time()
     budget = float(os.environ.get("C07_BUDGET", 0)) or ctx.n(80, 1500)
-    min_cases = ncorpus + ctx.n(150, 3000)      # never fewer than this, however loaded the box is
+    min_cases = ncorpus + (int(os.environ.get("C07_MIN", 0)) or ctx.n(150, 1500))   # never fewer, however loaded the box is
     hard = ctx.n(900, 7200)
     bad = False
     done = 0
